@@ -102,6 +102,30 @@ class PathEnum:
             return self.const_variant(r["o"], depth + 1)
         return None
 
+    def const_variant_array(self, o, depth=0):
+        """Operand -> set of variant names if it denotes (a reference/slice of) a
+        constant array of field-less enum values."""
+        p = op_place(o) if isinstance(o, dict) else o
+        if p is None or depth > 10 or not all(e == "*" for e in p[1]):
+            return None
+        d = self.single.get(p[0])
+        if not d or d[0] != "a" or d[3]["d"][1]:
+            return None
+        r = d[3]["r"]
+        if r["k"] == "agg" and r.get("ak") == "array":
+            vs = set()
+            for _n, oo in r["f"]:
+                v = self.const_variant(oo)
+                if v is None:
+                    return None
+                vs.add(v)
+            return vs
+        if r["k"] == "ref":
+            return self.const_variant_array(r["p"], depth + 1)
+        if r["k"] in ("use", "cast"):
+            return self.const_variant_array(r["o"], depth + 1)
+        return None
+
     def place_adt(self, place):
         """ADT def path of the type of a place (best effort)."""
         fn = self.fn
@@ -178,6 +202,11 @@ class PathEnum:
             f = t.get("f") or ""
             if "log::Level as core::cmp::PartialOrd" in (t.get("fa") or ""):
                 return ("log",)
+            if f == "core::slice::<impl [T]>::contains" and len(t["a"]) == 2:
+                vs = self.const_variant_array(t["a"][0])
+                p = self.resolve_place(t["a"][1])
+                if vs and p is not None:
+                    return ("in", self.key(p), frozenset(vs), neg)
             if f in EQ_FNS or f in NE_FNS:
                 a, b = t["a"][0], t["a"][1]
                 va, vb = self.const_variant(a), self.const_variant(b)
@@ -316,6 +345,27 @@ class PathEnum:
                             st = state
                         if st is not None:
                             walk(t["else"], st, events + [("lit", key, tuple(listed), False)], visited, blocks)
+                elif c[0] == "in":
+                    _, key, vs, neg = c
+                    for v, tb in list(t["t"]) + [("else", t["else"])]:
+                        if v == "else":
+                            is_true = "0" in [x for x, _ in t["t"]]
+                        else:
+                            is_true = v != "0"
+                        member = is_true != neg
+                        cur = state.get(key) or universe.get(key)
+                        if member:
+                            new = frozenset(vs) if cur is None else frozenset(cur) & frozenset(vs)
+                        else:
+                            new = None if cur is None else frozenset(cur) - frozenset(vs)
+                        if new is not None and not new:
+                            continue
+                        st = dict(state)
+                        if new is not None:
+                            st[key] = new
+                        else:
+                            st[key + "!="] = frozenset(state.get(key + "!=", frozenset())) | frozenset(vs)
+                        walk(tb, st, events + [("lit", key, tuple(sorted(vs)), member)], visited, blocks)
                 elif c[0] == "lit":
                     _, key, var, neg = c
                     names = None
